@@ -25,10 +25,11 @@ const (
 	wkFastq
 	wkJSON
 	wkCSV
+	wkAuto // WriteSequence: peeks the first batch to choose FASTA or FASTQ, then pushes it back
 	nWriterKinds
 )
 
-var wkNames = []string{"chunkwriter", "fasta", "fastq", "json", "csv"}
+var wkNames = []string{"chunkwriter", "fasta", "fastq", "json", "csv", "auto"}
 
 type writerPlan struct {
 	Kind       int
@@ -37,13 +38,15 @@ type writerPlan struct {
 	Arrival    []int
 	Workers    int
 	Compressed bool
+	DontClose  bool // JSON / CSV on a stream the writer does not own (as WriteJSONToStdout does)
+	CSVAuto    bool
 	Recs       []Rec
 	LongSeq    bool
 }
 
 func (p writerPlan) sample() map[string]any {
 	return map[string]any{"writer": wkNames[p.Kind], "batches": p.N, "sizes": p.Sizes, "arrival": permString(p.Arrival),
-		"workers": p.Workers, "compressed": p.Compressed, "records": len(p.Recs)}
+		"workers": p.Workers, "compressed": p.Compressed, "dont_close": p.DontClose, "csv_auto": p.CSVAuto, "records": len(p.Recs)}
 }
 
 var sizeTable = []int{1, 0, 2, 3}
@@ -62,6 +65,12 @@ func drawWriterPlan(t *simrt.Tape, maxN int, big bool) writerPlan {
 	p.Workers = 1 + t.Choose(4)
 	if p.Kind != wkChunk {
 		p.Compressed = t.Choose(3) == 2
+	}
+	if p.Kind == wkJSON || p.Kind == wkCSV {
+		p.DontClose = t.Choose(3) == 2
+	}
+	if p.Kind == wkCSV {
+		p.CSVAuto = t.Choose(4) == 3
 	}
 	lo, hi := 3, 70
 	if big {
@@ -131,11 +140,19 @@ type writerRun struct {
 }
 
 func writerOptions(p writerPlan) []obiformats.WithOption {
-	return []obiformats.WithOption{
+	o := []obiformats.WithOption{
 		obiformats.OptionsParallelWorkers(p.Workers),
-		obiformats.OptionCloseFile(),
 		obiformats.OptionsCompressed(p.Compressed),
 	}
+	if p.DontClose {
+		o = append(o, obiformats.OptionDontCloseFile())
+	} else {
+		o = append(o, obiformats.OptionCloseFile())
+	}
+	if p.CSVAuto {
+		o = append(o, obiformats.CSVAutoColumn(true))
+	}
+	return o
 }
 
 func chunkText(i, size int) []byte {
@@ -171,6 +188,8 @@ func runWriter(rc *RunCtx, p writerPlan, w *simrt.SimWriteCloser) SimResult {
 				out, err = obiformats.WriteJSON(it, w, writerOptions(p)...)
 			case wkCSV:
 				out, err = obiformats.WriteCSV(it, w, writerOptions(p)...)
+			case wkAuto:
+				out, err = obiformats.WriteSequence(it, w, writerOptions(p)...)
 			}
 			if err != nil {
 				panic(err)
@@ -197,7 +216,7 @@ func expectedText(p writerPlan) []byte {
 		switch p.Kind {
 		case wkChunk:
 			buf.Write(chunkText(i, p.Sizes[i]))
-		case wkFasta:
+		case wkFasta, wkAuto:
 			buf.Write(obiformats.FormatFastaBatch(b, obiformats.FormatFastSeqJsonHeader, false).Bytes())
 		case wkFastq:
 			buf.Write(obiformats.FormatFastqBatch(b, obiformats.FormatFastSeqJsonHeader, false).Bytes())
@@ -259,7 +278,7 @@ func checkWriterOutput(rc *RunCtx, prop string, p writerPlan, raw []byte) {
 	}
 	ids := idsOf(p.Recs)
 	switch p.Kind {
-	case wkChunk, wkFasta, wkFastq:
+	case wkChunk, wkFasta, wkFastq, wkAuto:
 		exp := expectedText(p)
 		if !bytes.Equal(text, exp) {
 			rc.Violate(prop+"/"+kind+"/bytes-differ"+arrivalShape(p),
@@ -303,7 +322,7 @@ func checkWriterOutput(rc *RunCtx, prop string, p writerPlan, raw []byte) {
 			rc.Violate(prop+"/csv/unparsable"+arrivalShape(p), "%v", err)
 			return
 		}
-		if len(rows) == 0 || len(rows[0]) != 2 || rows[0][0] != "id" || rows[0][1] != "sequence" {
+		if len(rows) == 0 || len(rows[0]) < 2 || rows[0][0] != "id" || rows[0][len(rows[0])-1] != "sequence" || (!p.CSVAuto && len(rows[0]) != 2) {
 			first := "<no row>"
 			if len(rows) > 0 {
 				first = strings.Join(rows[0], ",")
@@ -361,12 +380,27 @@ func runC04(rc *RunCtx) {
 		rc.Violate("C04/"+kind+"/unexpected-exit"+arrivalShape(p), "the writer ended the process on a fault-free output: %s", describeExit(res))
 		return
 	}
-	if w.Closes != 1 {
-		rc.Violate("C04/"+kind+"/close-count", "Close called %d times on the output, expected exactly once", w.Closes)
+	wantCloses := 1
+	if p.DontClose {
+		wantCloses = 0 // the stream belongs to the caller; it must still be complete (flushed)
+	}
+	if p.Kind == wkAuto && p.N == 0 && w.Closes == 0 {
+		// WriteSequence on a stream without any batch creates no writer at all: there is no
+		// "last batch" after which to close, and the (empty) output is left to its owner
+		wantCloses = 0
+	}
+	if w.Closes != wantCloses {
+		rc.Violate("C04/"+kind+"/close-count", "Close called %d times on the output, expected %d", w.Closes, wantCloses)
 		return
 	}
 	if w.WriteAfterClose > 0 {
 		rc.Violate("C04/"+kind+"/write-after-close", "%d writes after Close", w.WriteAfterClose)
+		return
+	}
+	if p.Kind == wkAuto && p.N == 0 {
+		if len(w.Bytes()) != 0 {
+			rc.Violate("C04/auto/bytes-differ"+arrivalShape(p), "%d bytes written for a stream without any batch", len(w.Bytes()))
+		}
 		return
 	}
 	checkWriterOutput(rc, "C04", p, w.Bytes())
